@@ -78,11 +78,11 @@ def SysB.step (s : SysB Var Val ε α) (i : Nat) : SysB Var Val ε α :=
             let ℓ := tb.th.att.toLog
             if (ℓ.lastWrite v).isNone && (ℓ.firstRead v).isNone && otherWriteHolds s i v then s
             else
-              let (t', st', _) := threadStep tb.th s.store
-              { s with store := st', threads := s.threads.set i { tb with th := t' } }
+              { s with store := (threadStep tb.th s.store).2.1
+                       threads := s.threads.set i { tb with th := (threadStep tb.th s.store).1 } }
         | _ =>
-            let (t', st', _) := threadStep tb.th s.store
-            { s with store := st', threads := s.threads.set i { tb with th := t' } }
+            { s with store := (threadStep tb.th s.store).2.1
+                     threads := s.threads.set i { tb with th := (threadStep tb.th s.store).1 } }
     | some (v :: todo, held) =>
         if held.contains v then
           -- already locked (a variable may occur twice in the log list)
